@@ -25,10 +25,11 @@ BOUND = {
     'quick': (
         'all call histories of length <= 2 on radixes (2,3) [full alphabet] '
         'and (2,2,2) [lean alphabet], and of length <= 3 on (2,2) [lean '
-        'alphabet], states merged by canonical key; 179,338 transitions / '
-        '50,241 states on the unchanged tree, ~400-600 CPU-s (measured 2-3.5 '
-        'ms per transition), i.e. ~35-50 s on 16 idle cores; exhaustive is '
-        'true only if no time cap was hit'),
+        'alphabet], states merged by canonical key; measured 179,338 '
+        'transitions / 50,241 states before and ~140,000 transitions after '
+        'the C04/C05 repairs, 2-3.5 ms CPU per transition, i.e. ~400-600 '
+        'CPU-s or 35-50 s on 16 idle cores; exhaustive is true only if no '
+        'time cap was hit'),
     'thorough': (
         'histories of length <= 3 on (2,2), (2,3) [full] and (2,2,2), '
         '(3,2,2) [lean]; every single-position deviation of a 28-call '
